@@ -91,7 +91,7 @@ class Lowerer:
             raise ev[2]
         return ev[1]
 
-    def build_unit(self, name, harness_src, entries, tus, cut=(), export=(), hflags=(), tuflags=(), keep=()):
+    def build_unit(self, name, harness_src, entries, tus, cut=(), export=(), hflags=(), tuflags=(), keep=(), skip_ctors=()):
         """returns (c_path, meta dict)"""
         d = os.path.join(self.scratch, name)
         os.makedirs(d, exist_ok=True)
@@ -125,7 +125,7 @@ class Lowerer:
         run(['opt-14', '-S', '-passes=internalize,globaldce', '-internalize-public-api-list=' + api, linked, '-o', pruned])
         cpath = os.path.join(d, 'unit.c')
         mpath = os.path.join(d, 'unit.json')
-        run(['python3', os.path.join(VERIF, 'engine/ll2c.py'), pruned, cpath, '--meta', mpath])
+        run(['python3', os.path.join(VERIF, 'engine/ll2c.py'), pruned, cpath, '--meta', mpath, '--skip-ctors', ','.join(skip_ctors)])
         meta = json.load(open(mpath))
         meta['ir_lines'] = sum(1 for _ in open(pruned))
         meta['c_lines'] = sum(1 for _ in open(cpath))
@@ -149,4 +149,29 @@ def func_hashes(pruned_ll, limit=400):
             if ln.startswith('}'):
                 out[cur] = hashlib.sha256(''.join(buf).encode()).hexdigest()[:16]
                 cur = None
+    return out
+
+
+MAIN_FILES = ('interrogate.cxx', 'interrogate_module.cxx', 'parse_file.cxx')
+SKIP_FILES = ('test_strtod.cxx', 'py_panda.cxx', 'py_support.cxx', 'py_compat.cxx', 'py_wrappers.cxx', 'dtool_super_base.cxx')
+
+
+def expand_tus(tus, L=None):
+    """'@module' stands for every .cxx of src/<module> (mains, tests and the Python runtime excluded);
+    '@cppparser' includes the bison output generated in the scratch directory."""
+    import glob
+    out = []
+    for t in tus:
+        if t.startswith('@'):
+            m = t[1:]
+            for f in sorted(glob.glob('%s/src/%s/*.cxx' % (REPO, m))):
+                bn = os.path.basename(f)
+                if bn in MAIN_FILES or bn in SKIP_FILES or bn.startswith('test_'):
+                    continue
+                out.append('src/%s/%s' % (m, bn))
+            if m == 'cppparser' and L is not None:
+                L.ensure_bison()
+                out.append(os.path.join(L.gen, 'cppBison.cxx'))
+        else:
+            out.append(t)
     return out
